@@ -79,6 +79,8 @@ pub enum Pre {
     PrintTextBlock,
     /// a status information without receipt number
     PlainStatus,
+    /// a status information without receipt number whose result code (BMP 27) is this
+    StatusWithResult(u8),
     /// a status information carrying this receipt number
     ReceiptStatus(u64),
 }
@@ -105,6 +107,8 @@ pub struct StatusFields {
     pub terminal_id: Option<u64>,
     pub currency: Option<u64>,
     pub card_name: Option<String>,
+    /// BMP 27 result code of the status information (None = 0, success)
+    pub result_code: Option<u8>,
 }
 
 /// What a card looks like to the terminal (read-card status information).
@@ -268,6 +272,10 @@ pub struct Plan {
     pub split_delay_ms: Option<u64>,
     /// serial in the other letter case
     pub flip_serial_case: bool,
+    /// which other serial a WrongSerial fault reports: 0 reversed, 1 the configured one without its last character,
+    /// 2 blank (NULs), 3 empty after trimming (spaces), 4 only the first character, 5 last character changed, 6 first
+    /// character changed, 7 the configured one with its two halves swapped
+    pub wrong_serial_variant: u8,
     /// from the start of this call on the terminal holds a dangling pre-authorisation with this receipt number and
     /// reports it on every pending query until a reversal of it completes
     pub dangling_from_call: Option<(usize, u64)>,
@@ -467,7 +475,7 @@ fn hexs(s: &str) -> Val {
 }
 
 fn status_packet(e: &Enc0, st: &StatusFields, receipt: Option<u64>, card: Option<&CardData>) -> Vec<u8> {
-    let mut f: Vec<(&str, Val)> = vec![("result_code", Val::Num(0))];
+    let mut f: Vec<(&str, Val)> = vec![("result_code", Val::Num(st.result_code.unwrap_or(0) as u128))];
     if let Some(x) = st.amount {
         f.push(("amount", Val::Num(x as u128)));
     }
@@ -545,6 +553,7 @@ fn pre_packets(e: &Enc0, pre: &[Pre], status: &StatusFields) -> Vec<Vec<u8>> {
             Pre::PrintLine(t) => e.packet("packets::PrintLine", &[("attribute", Val::Num(0)), ("text", Val::Text(t.clone()))]),
             Pre::PrintTextBlock => e.packet("packets::PrintTextBlock", &[]),
             Pre::PlainStatus => status_packet(e, status, None, None),
+            Pre::StatusWithResult(c) => status_packet(e, &StatusFields { result_code: Some(*c), ..status.clone() }, None, None),
             Pre::ReceiptStatus(r) => status_packet(e, status, Some(*r), None),
         })
         .collect()
@@ -592,7 +601,7 @@ fn respond(sh: &mut Shared, cmd: Cmd, val: &Val) -> (Vec<Vec<u8>>, u64, Effect) 
     let xp = sh.take_explan(cmd);
     let completion = |e: &Enc0| e.packet("packets::CompletionData", &[]);
     let abort = |e: &Enc0, c: u8| e.packet("packets::Abort", &[("error", Val::Num(c as u128))]);
-    let default_status = StatusFields { amount: Some(2500), trace_number: Some(sh.trace_counter), date: Some(405), time: Some(225558), terminal_id: Some(52523535), currency: Some(978), card_name: Some("girocard".into()) };
+    let default_status = StatusFields { amount: Some(2500), trace_number: Some(sh.trace_counter), date: Some(405), time: Some(225558), terminal_id: Some(52523535), currency: Some(978), card_name: Some("girocard".into()), result_code: None };
     let status = xp.status.clone().unwrap_or(default_status);
     let mut out = pre_packets(&e, &xp.pre, &status);
     match cmd {
@@ -917,7 +926,19 @@ async fn serve(shared: SharedRef, mut io: DuplexStream, conn: usize) {
                                 let sh = shared.lock().unwrap();
                                 let schema = sh.schema.clone();
                                 let e = Enc0 { schema: &schema };
-                                let other: String = sh.serial.chars().rev().collect::<String>();
+                                let cs: Vec<char> = sh.serial.chars().collect();
+                                let n = cs.len();
+                                let bump = |c: char| if c == '0' { '1' } else { '0' };
+                                let other: String = match sh.plan.wrong_serial_variant % 8 {
+                                    1 => cs[..n.saturating_sub(1)].iter().collect::<String>() + "\0",
+                                    2 => "\0".repeat(n),
+                                    3 => " ".repeat(n),
+                                    4 => cs.iter().take(1).collect::<String>() + &"\0".repeat(n.saturating_sub(1)),
+                                    5 => cs[..n.saturating_sub(1)].iter().collect::<String>() + &bump(*cs.last().unwrap_or(&'0')).to_string(),
+                                    6 => bump(*cs.first().unwrap_or(&'0')).to_string() + &cs.iter().skip(1).collect::<String>(),
+                                    7 => cs[n / 2..].iter().chain(cs[..n / 2].iter()).collect(),
+                                    _ => cs.iter().rev().collect(),
+                                };
                                 let other = if other.eq_ignore_ascii_case(&sh.serial) { "0BADBAD0".to_string() } else { other };
                                 e.packet(
                                     "feig::packets::CVendFunctionsEnhancedSystemInformationCompletion",
